@@ -776,6 +776,37 @@ class Engine:
             return int_cast(v, ty)
         if kind.startswith("PointerCoercion") or kind in ("PtrToPtr", "Transmute"):
             return v
+        if kind == "FloatToInt" and isinstance(v, Sc) and v.ty == "f64" and ty in INT_BITS:
+            # Rust `as`: truncation toward zero, saturating at the target's bounds, NaN -> 0
+            bits, signed = INT_BITS[ty], ty.startswith("i")
+            fa = z3.fpBVToFP(bv64(v), z3.Float64())
+            srt = z3.BitVecSort(bits)
+            if signed:
+                lo, hi, conv = -(1 << (bits - 1)), (1 << (bits - 1)) - 1, z3.fpToSBV(z3.RTZ(), fa, srt)
+                below = z3.fpLT(fa, z3.FPVal(float(lo), z3.Float64()))         # -2^(bits-1) is exact
+            else:
+                lo, hi, conv = 0, (1 << bits) - 1, z3.fpToUBV(z3.RTZ(), fa, srt)
+                below = z3.fpLT(fa, z3.FPVal(0.0, z3.Float64()))
+            above = z3.fpGEQ(fa, z3.FPVal(float(hi + 1), z3.Float64()))       # 2^k is exact
+            r = z3.If(z3.fpIsNaN(fa), z3.BitVecVal(0, bits),
+                      z3.If(below, z3.BitVecVal(lo, bits), z3.If(above, z3.BitVecVal(hi, bits), conv)))
+            r = z3.simplify(r)
+            return Sc(ty, r.as_signed_long() if (z3.is_bv_value(r) and signed) else
+                      (r.as_long() if z3.is_bv_value(r) else r))
+        if kind == "IntToFloat" and isinstance(v, Sc) and v.ty in INT_BITS and ty == "f64":
+            # round to nearest, ties to even (exact below 2^53)
+            bits = INT_BITS[v.ty]
+            x = v.v if is_sym(v.v) else z3.BitVecVal(int(v.v), bits)
+            f = z3.fpSignedToFP(z3.RNE(), x, z3.Float64()) if v.ty.startswith("i") else \
+                z3.fpUnsignedToFP(z3.RNE(), x, z3.Float64())
+            if not is_sym(v.v):
+                import struct as _st
+                return Sc("f64", _st.unpack("<Q", _st.pack("<d", float(int(v.v))))[0])
+            # a fresh bit pattern constrained to denote the converted value (fpToIEEEBV is not total
+            # on NaN, which an integer never converts to)
+            b = ctx.fresh_bv("i2f", 64)
+            ctx.assume(z3.fpBVToFP(b, z3.Float64()) == f)
+            return Sc("f64", b)
         raise Unsupported("cast kind %s" % kind)
 
 
